@@ -354,6 +354,68 @@ def forced_recursive_spec(rng, kind):
     return dict(nlabels=[2], elabels=elabels, start=0, rules=rules, weights=weights,
                 features=["forced_matrix_recursion" if kind == 0 else "forced_nonlinear_matrix_recursion"], recursive=True)
 
+def asym_matrix(rng, W, n=2):
+    """an n x n table that differs from its transpose (and is not a multiple of the identity)"""
+    while True:
+        m = gen.nested([n, n], lambda: rng.choice(W))
+        if any(m[i][j] != m[j][i] for i in range(n) for j in range(n)): return m
+
+def forced_hi_arity_recursion_spec(rng, kind):
+    """a RECURSIVE component containing a nonterminal with >= 2 external nodes and a Jacobian that is not invariant
+    under reversing / permuting the axes of its blocks (asymmetric matrices h), so that the order in which the
+    backward pass flattens and transposes the blocks of (I - J)^T matters.  X is the start symbol (any cotangent
+    over its cells) or sits under S -> X(a,b) f(a) g(b).  labels: 0 start, then nonterminals, then terminals.
+      0: X(a,b) -> p(a,b) | h(a,c) X(c,b)                  (J = H (x) I; reversed axes: I (x) H)
+      1: X(a,b) -> f(a) g(b) | X(b,c) h(c,a)               (recursion that also swaps the axes)
+      2: X(a,b) -> p(a,b) | X(a,c) X(c,b)                  (non-linear)
+      3: X(a,b) -> h(a,b) Y(b) | f(a) g(b);  Y(a) -> X(a,c) f(c) | g(a)     (blocks of mixed arity 2 x 1, 1 x 2)
+      4: X(a,b,c) -> h(a,b) f(c) | h(a,d) X(d,b,c)         (arity 3)
+      5: X(a,b,c) -> h(a,b) f(c) | h(a,d) X(b,c,d)         (arity 3, recursion rotates the axes)"""
+    W = [Fraction(1, 4), Fraction(1, 2), Fraction(1), Fraction(1), Fraction(2)]
+    rw = lambda shape: gen.nested(shape, lambda: rng.choice(W))
+    NT = lambda ar: dict(term=False, type=[0] * ar)
+    TM = lambda ar: dict(term=True, type=[0] * ar)
+    ar = 3 if kind >= 4 else 2
+    under = kind in (1, 3) and rng.random() < 0.5      # S -> X(a,b) f(a) g(b) on top (kinds with vector factors)
+    els = ([NT(0)] if under else []) + [NT(ar)]
+    X = len(els) - 1
+    rules = []
+    if kind == 0:
+        p, h = X + 1, X + 2; els += [TM(2), TM(2)]
+        rules += [dict(lhs=X, nodes=[0, 0], edges=[(p, [0, 1])], ext=[0, 1]),
+                  dict(lhs=X, nodes=[0, 0, 0], edges=[(h, [0, 2]), (X, [2, 1])], ext=[0, 1])]
+        weights = {p: asym_matrix(rng, W), h: asym_matrix(rng, W[:4])}
+    elif kind == 1:
+        f, g, h = X + 1, X + 2, X + 3; els += [TM(1), TM(1), TM(2)]
+        rules += [dict(lhs=X, nodes=[0, 0], edges=[(f, [0]), (g, [1])], ext=[0, 1]),
+                  dict(lhs=X, nodes=[0, 0, 0], edges=[(X, [1, 2]), (h, [2, 0])], ext=[0, 1])]
+        weights = {f: rw([2]), g: rw([2]), h: asym_matrix(rng, W[:4])}
+    elif kind == 2:
+        p = X + 1; els += [TM(2)]
+        rules += [dict(lhs=X, nodes=[0, 0], edges=[(p, [0, 1])], ext=[0, 1]),
+                  dict(lhs=X, nodes=[0, 0, 0], edges=[(X, [0, 2]), (X, [2, 1])], ext=[0, 1])]
+        weights = {p: asym_matrix(rng, W)}
+    elif kind == 3:
+        Y = X + 1; els += [NT(1)]
+        h, f, g = Y + 1, Y + 2, Y + 3; els += [TM(2), TM(1), TM(1)]
+        rules += [dict(lhs=X, nodes=[0, 0], edges=[(h, [0, 1]), (Y, [1])], ext=[0, 1]),
+                  dict(lhs=X, nodes=[0, 0], edges=[(f, [0]), (g, [1])], ext=[0, 1]),
+                  dict(lhs=Y, nodes=[0, 0], edges=[(X, [0, 1]), (f, [1])], ext=[0]),
+                  dict(lhs=Y, nodes=[0], edges=[(g, [0])], ext=[0])]
+        weights = {h: asym_matrix(rng, W[:4]), f: rw([2]), g: rw([2])}
+    else:
+        h, f = X + 1, X + 2; els += [TM(2), TM(1)]
+        rec = [3, 1, 2] if kind == 4 else [1, 2, 3]
+        rules += [dict(lhs=X, nodes=[0, 0, 0], edges=[(h, [0, 1]), (f, [2])], ext=[0, 1, 2]),
+                  dict(lhs=X, nodes=[0, 0, 0, 0], edges=[(h, [0, 3]), (X, rec)], ext=[0, 1, 2])]
+        weights = {h: asym_matrix(rng, W[:4]), f: rw([2])}
+    if under:
+        f, g = (X + 1, X + 2) if kind == 1 else (X + 3, X + 4)
+        rules.insert(0, dict(lhs=0, nodes=[0, 0], edges=[(X, [0, 1]), (f, [0]), (g, [1])], ext=[]))
+    return dict(nlabels=[2], elabels=els, start=0, rules=rules, weights=weights,
+                features=["forced_hi_arity_recursion", "forced_hi_arity_recursion_kind%d" % kind] + (["forced_nonlinear_hi_arity"] if kind == 2 else []),
+                recursive=True)
+
 NT0 = dict(term=False, type=[])
 def forced_finding_specs():
     """minimal inputs of the defect classes found by this check and since repaired in /repo (b84d904, 839ae95, e1d8ad4, fc474fc, 124928a); kept in every run as regression cases"""
@@ -435,6 +497,11 @@ def gen_spec(rng, i, recursive):
     if recursive and i % 3 == 2 and (i // 3) % 2 == 0:
         spec = forced_diag_recursion_spec(rng, under_start=(i // 6) % 3 != 0)
         return spec, rng.choice([Fraction(1, 4), Fraction(1, 8)]), False
+    if recursive and i % 3 == 0 and (i // 3) % 2 == 0:
+        kind = (i // 6) % 6
+        spec = forced_hi_arity_recursion_spec(rng, kind)
+        if shared_factor(spec): spec["features"] = sorted(set(spec["features"]) | {"shared_factor"})
+        return spec, (Fraction(1, 8) if kind in (2, 3) else rng.choice([Fraction(1, 4), Fraction(1, 8)])), False
     if recursive and i % 3 == 1:
         kind = (i // 3) % 4
         spec = forced_recursive_spec(rng, kind)
@@ -516,6 +583,8 @@ def run(tier, seed):
             method = METHODS[(i + ci) % 3] if i != -2 else "fixed-point"
             if any(f in spec["features"] for f in ("forced_mutual_recursion", "forced_nonlinear_matrix_recursion", "forced_dead_rule_first", "forced_diagonal_recursion")):
                 method = METHODS[(i // 3 + ci) % 2]      # non-linear recursion: method='linear' would only raise its ValueError
+            if "forced_hi_arity_recursion" in spec["features"]:      # i % 6 == 0 here: rotate over all three methods (two when non-linear)
+                method = METHODS[(i // 6 + i // 36 + ci) % (2 if "forced_nonlinear_hi_arity" in spec["features"] else 3)]
             plain = (i + ci) % 3 == 0
             cot = [Fraction(1)] * n_c if plain else [rng.choice(COT_GRID) for _ in range(n_c)]
             case = dict(spec=gen.spec_jsonable(spec), semiring=sr.name, scale=str(sr.scale), method=method, cotangent=[str(c) for c in cot], plain=plain, via="api")
